@@ -24,7 +24,8 @@ RULE = ('solved 2021-2023 returns (answer-on-demand) whose string inputs are rep
         'unbalanced parentheses, backslashes, quotes, %, long) are filled through the real fill-pdfs path against a stand-in pdftk; '
         'oracle: independent FDF decoder + mapped texts, filing-rule table, limit table. Non-trivial = a fill whose texts contain a '
         'PDF metacharacter, or that files at least 3 forms, or that carries an injected limit violation; distinct = (scenario, texts)'
-        ' Ties: itemized total equal to the standard deduction to the dollar (federal and N.C.), with plain texts; hyphenated over-long texts.')
+        ' Ties: itemized total equal to the standard deduction to the dollar (federal and N.C.), with plain texts; hyphenated over-long texts.'
+        ' Texts of several hundred characters dense with PDF string syntax; attachment sequence numbers of every form class against the filing-rule table (exhaustive).')
 ASSUMPTIONS = ['mapped text = PDFField.value(typed value read back from the solution) - the mapping is C18\'s subject, the transmission C19\'s',
                'data/filing_rules.json transcribes the IRS attachment sequence numbers and the NC assembly order',
                'printable ASCII only (the property\'s stated domain)']
